@@ -246,3 +246,6 @@ func Q(s string) string {
 	}
 	return ModPath + "/" + s
 }
+
+// Sizes returns the type sizes of the analysed target (linux/amd64).
+func (p *Prog) Sizes() types.Sizes { return types.SizesFor("gc", "amd64") }
